@@ -98,7 +98,7 @@ let gen_row r (ls : lay list) : datum list =
 
 (* ---------- knobs ---------- *)
 type dbf = DbNone | DbExact | DbAbsent | DbCase | DbPrefix | DbTemplate
-type tf = TfNone | TfSub | TfCaseSub | TfNoMatch | TfWhole | TfLonger | TfUpper | TfLower
+type tf = TfNone | TfSub | TfCaseSub | TfNoMatch | TfWhole | TfLonger | TfUpper | TfLower | TfSubPg
 (* physical order of the live pg_attribute rows (what the layout auto-detection looks at) *)
 type det = DetAny | DetOk5 | DetExact5 | Det4 | DetWrong of int (* first j-1 live rows carry 1..j-1, the j-th does not carry j *) | DetLooks16
 type mal = MalNone | MalClassShort | MalClassDup | MalClassReal | MalClassNull | MalName64 | MalAttrOdd | MalAttrReal | MalAttrNull
@@ -110,7 +110,7 @@ type prof = {
   force_order : bool;     (* >= 3 dumpable tables whose filenode order differs from the physical order and its reverse *)
   missing_dir : bool; empty_class : int; orphan_dir : bool;
   safe_misc : bool;       (* attstattarget / atttypmod with high halves 0 or 0xFFFF *)
-  mal : mal; maxrel : int; maxfiles : int; pgnames : bool; wide : bool (* a table of 13..20 columns *) }
+  mal : mal; maxrel : int; maxfiles : int; pgnames : bool; pgforce : bool (* most relations get a pg_ name *); wide : bool (* a table of 13..20 columns *) }
 
 let rand_prof r : prof =
   let v16 = rbool r in
@@ -119,7 +119,7 @@ let rand_prof r : prof =
   { ndb = pick r [| 1; 2; 2; 3 |]; templates = rbool r; dbf = DbNone; tf = TfNone; listonly = chance r 1 6; skipsys = chance r 2 3; optsnil = false;
     v16; hint; det = (if v16 && auto then DetOk5 else DetAny); cls_pp = pick r [| 4; 8; 50 |]; att_pp = pick r [| 10; 25; 60 |];
     db_pp = pick r [| 2; 5; 50 |]; zero_col = false; dead = rint r 3; force_order = false; missing_dir = chance r 1 6; empty_class = 0;
-    orphan_dir = chance r 1 8; safe_misc = rbool r; mal = MalNone; maxrel = 8; maxfiles = 5; pgnames = chance r 1 3; wide = false }
+    orphan_dir = chance r 1 8; safe_misc = rbool r; mal = MalNone; maxrel = 8; maxfiles = 5; pgnames = chance r 1 3; pgforce = false; wide = false }
 let auto_hint h = h < 12
 (* the detection-relevant knobs for a layout/hint pair chosen by a stratum *)
 let with_layout (p : prof) ~v16 ~hint ~det = { p with v16; hint; det }
@@ -177,7 +177,8 @@ let gen_rel r (p : prof) ~(fresh : unit -> int) ~(budget : int ref) (force : for
   let nums =
     if (dump && file) || chance r 2 3 then List.init ncols (fun i -> i + 1)
     else (let cur = ref 0 in List.init ncols (fun _ -> cur := !cur + 1 + rint r 2; !cur)) in       (* gaps: a relation that is not read *)
-  let name = if p.pgnames && chance r 1 3 then pick r pg_names else pick r t_names in
+  let name = if p.pgforce && chance r 2 3 then pick r [| "pg_statistic2"; "pg_class_copy"; "pg_Users"; "pg_users"; "pg_aggregate" |]
+    else if p.pgnames && chance r 1 3 then pick r pg_names else pick r t_names in
   { oid; name; node; kind; cols; nums; file;
     nrows = (match force with ZeroCol -> rrange r 1 4 | _ -> if file then pick r [| 0; 1; 1; 2; 3; 3; 5; 8; 12 |] else 0);
     syscols = (match force with NoAttrs -> false | _ -> chance r 1 5) }
@@ -381,7 +382,18 @@ let build_dir r (p : prof) ~(det : det) ~(dir_oid : int) ~(budget : int ref) ~(s
       retuple (fun _ a it -> if chance r 1 3 then VOld (form r ~alive:true (attr_schema (not v16)) (attr_ds (not v16) { a with ar_misc = gen_misc r ~safe:true })) else it) attr_items
     | _ -> attr_items in
   let natt = List.length attr_items in
-  let attr_pages = pack r ~fits:(page_fits asch ads) ~per_page:(per_page_for ~maxpages:3 natt p.att_pp) attr_items in
+  let att_per_page = per_page_for ~maxpages:3 natt p.att_pp in
+  (* sometimes the first block of pg_attribute is mostly dead row versions left by DDL, so that fewer than five live rows sit
+     on it and the first five live rows (what layout auto-detection looks at) span two blocks (seeded change C01-1) *)
+  let attr_items =
+    if mal = MalNone && live_a <> [] && chance r 1 3 then begin
+      let k = rint r 5 in
+      let nlive = List.length live_a in
+      let deadrow i = let a = List.nth live_a (i mod nlive) in
+        VRow (mk_vhdr r ~alive:false, { a with ar_name = bs "ddl_leftover" }) in
+      List.init (max 0 (att_per_page - k)) deadrow @ attr_items
+    end else attr_items in
+  let attr_pages = pack r ~fits:(page_fits asch ads) ~per_page:att_per_page attr_items in
   let dir_attr = heap_of r ~zero_ok:(natt < 40) attr_pages in
   (* --- relation files --- *)
   let live_attrs = live_rows dir_attr in
@@ -495,7 +507,14 @@ let make_opts r (p : prof) (w : world) : options option =
     let tfilter = match p.tf with
       | TfNone -> "" | TfSub -> substring r anyt | TfCaseSub -> swapcase (substring r anyt) | TfNoMatch -> pick r [| "zzq"; "pg__"; "_pg" |]
       | TfWhole -> anyt | TfLonger -> if rbool r then anyt ^ "s" else "x" ^ anyt
-      | TfUpper -> String.uppercase_ascii (substring r anyt) | TfLower -> String.lowercase_ascii (substring r anyt) in
+      | TfUpper -> String.uppercase_ascii (substring r anyt) | TfLower -> String.lowercase_ascii (substring r anyt)
+      | TfSubPg ->     (* a filter that matches a pg_-named relation (by a part of its name after the prefix, either case):
+                          with SkipSystemTables the relation must stay out whatever the filter says (seeded change C01-2) *)
+        (match List.filter (fun n -> String.length n > 4 && String.sub n 0 3 = "pg_") w.tables with
+         | [] -> substring r anyt
+         | l -> let n = pick r (Array.of_list l) in
+           let t = substring r (String.sub n 3 (String.length n - 3)) in
+           if rbool r then t else swapcase t) in
     Some { o_dbfilter = bs dbfilter; o_tablefilter = bs tfilter; o_listonly = p.listonly; o_skipsys = p.skipsys; o_pgversion = zi p.hint }
   end
 
